@@ -10,6 +10,7 @@ package main
 // reported) and the tree walks (Accept), and answers ordering / dominance questions across the call structure.
 
 import (
+	"fmt"
 	"go/constant"
 	"go/token"
 	"go/types"
@@ -312,4 +313,294 @@ func (u *parseUnit) orderedBefore(fn *ssa.Function, a, b func(ssa.Instruction) b
 		}
 	}
 	return true
+}
+
+// */errors-not-discarded: what the listener has collected is not thrown away before the gate looks at it.
+//
+// The lexer runs lazily while the parser pulls tokens, its errors ("token recognition error") land in the same listener as the
+// parser's. Any assignment to the listener's error list that can execute after a start rule has run - resetting it before a second
+// parsing attempt, replacing it - loses the lexer's errors for good (a re-parse reuses the buffered tokens): input with characters
+// outside the alphabet is then accepted, formatted without them and written back. Decided: in the unit of every entry point no store
+// to SyntaxErrorListener.Errors other than the listener's own recording (an append of the list to itself) is reachable from a
+// start-rule call.
+func errorsNotDiscarded(w *World, r *Report, prop string) {
+	rule := prop + "/errors-not-discarded"
+	n := 0
+	for _, name := range []string{"FormatPacketDsl", "ParseFile"} {
+		fn := w.Parser.Func(name)
+		if fn == nil {
+			continue
+		}
+		u := newParseUnit(w, fn)
+		isStart := func(ins ssa.Instruction) bool { _, ok := u.isStartRuleCall(ins); return ok }
+		var bad ssa.Instruction
+		for _, f := range u.funcs() {
+			forEachInstr(f, func(_ *ssa.BasicBlock, ins ssa.Instruction) {
+				st, ok := ins.(*ssa.Store)
+				if !ok || bad != nil {
+					return
+				}
+				fa, ok := st.Addr.(*ssa.FieldAddr)
+				if !ok {
+					return
+				}
+				if tn, fname, _, _ := fieldOf(fa); tn != "SyntaxErrorListener" || fname != "Errors" {
+					return
+				}
+				// the recording itself: Errors = append(Errors, ...)
+				if c, ok := stripIdentity(st.Val).(*ssa.Call); ok {
+					if bi, ok := c.Call.Value.(*ssa.Builtin); ok && bi.Name() == "append" && len(c.Call.Args) > 0 {
+						if ld, ok := stripIdentity(c.Call.Args[0]).(*ssa.UnOp); ok && ld.Op == token.MUL {
+							if fa2, ok := ld.X.(*ssa.FieldAddr); ok {
+								if tn2, f2, _, _ := fieldOf(fa2); tn2 == "SyntaxErrorListener" && f2 == "Errors" {
+									return
+								}
+							}
+						}
+					}
+				}
+				// a constructor initialising a fresh listener
+				if al, ok := stripIdentity(fa.X).(*ssa.Alloc); ok && al.Parent() == f {
+					return
+				}
+				// reachable after a start rule ran? (same function: a start-rule site reaches the store; other function: conservatively yes
+				// when the function is called after one)
+				after := false
+				for _, s := range u.sitesIn(f, isStart) {
+					if instrReaches(s, ins) {
+						after = true
+					}
+				}
+				if !after && f != fn {
+					for _, cs := range u.sites[f] {
+						for _, s := range u.sitesIn(cs.Parent(), isStart) {
+							if instrReaches(s, cs) {
+								after = true
+							}
+						}
+					}
+				}
+				if after {
+					bad = ins
+				}
+			})
+		}
+		n++
+		key := name + ": the collected syntax errors reach the gate"
+		if bad == nil {
+			r.pass(rule, key, w.pos(fn.Pos()), "")
+		} else {
+			r.fail(rule, key, w.instrPos(bad), "the listener's error list is overwritten after the start rule has run: the lexer's errors (characters outside the alphabet) are reported only while the tokens are first produced, a second parse reuses the buffered tokens - such input is accepted, formatted without the offending characters and written back")
+		}
+	}
+	if n == 0 {
+		r.fail(rule, "entry points found", "internal/parser", "neither FormatPacketDsl nor ParseFile resolved")
+	}
+}
+
+// errorDelivered: the error result cv (a call's value) of a function called under the command line reaches the process's exit
+// status: the calling function returns it (as it is, wrapped, or any non-nil error in its place) on every path on which it is not
+// nil and is itself a cobra RunE function or delivers its own error the same way, or it tests it and exits non-zero on the non-nil
+// edge. Returns "" when delivered, the reason otherwise.
+func errorDelivered(w *World, cv *ssa.Call, depth int) string {
+	fn := cv.Parent()
+	if depth > 4 {
+		return "call chain too deep"
+	}
+	// tested and exited
+	mustExit := func(b *ssa.BasicBlock, succ int) bool {
+		seen := map[*ssa.BasicBlock]bool{}
+		stack := []*ssa.BasicBlock{b.Succs[succ]}
+		some := false
+		for len(stack) > 0 {
+			bb := stack[len(stack)-1]
+			stack = stack[:len(stack)-1]
+			if seen[bb] {
+				continue
+			}
+			seen[bb] = true
+			ex := false
+			for _, ins := range bb.Instrs {
+				if ci, ok := ins.(ssa.CallInstruction); ok && exitsNonZero(ci, 0) {
+					ex = true
+				}
+			}
+			if ex {
+				some = true
+				continue
+			}
+			if noReturnBlock(bb) {
+				continue
+			}
+			if len(bb.Succs) == 0 {
+				return false
+			}
+			stack = append(stack, bb.Succs...)
+		}
+		return some
+	}
+	type nt struct {
+		b  *ssa.BasicBlock
+		nn int
+	}
+	var tests []nt
+	for _, b := range fn.Blocks {
+		cond := branchCond(b)
+		if cond == nil {
+			continue
+		}
+		if x, nn, ok := nilTest(cond); ok && sameValue(x, cv) {
+			tests = append(tests, nt{b, nn})
+		}
+	}
+	for _, t := range tests {
+		if mustExit(t.b, t.nn) {
+			return ""
+		}
+	}
+	res := fn.Signature.Results()
+	errIdx := -1
+	for i := 0; i < res.Len(); i++ {
+		if types.TypeString(res.At(i).Type(), nil) == "error" {
+			errIdx = i
+		}
+	}
+	if errIdx < 0 {
+		return fnKey(fn) + " neither returns the error nor exits with a non-zero status when it is not nil"
+	}
+	underNil := func(b *ssa.BasicBlock) bool {
+		for _, t := range tests {
+			if edgeDominates(t.b, 1-t.nn, b) {
+				return true
+			}
+		}
+		return false
+	}
+	var nonNil func(v ssa.Value, at *ssa.BasicBlock, d int) bool
+	nonNil = func(v ssa.Value, at *ssa.BasicBlock, d int) bool {
+		v0 := v
+		v = stripIdentity(v)
+		if sameValue(v, cv) || sameValue(v0, cv) {
+			return true
+		}
+		if d > 4 {
+			return false
+		}
+		switch x := v.(type) {
+		case *ssa.Call:
+			if f := x.Call.StaticCallee(); f != nil {
+				switch f.String() {
+				case "fmt.Errorf", "errors.New", "errors.Join":
+					return true
+				}
+			}
+		case *ssa.MakeInterface:
+			return !isNilConst(x.X)
+		case *ssa.Phi:
+			for i, e := range x.Edges {
+				if underNil(x.Block().Preds[i]) {
+					continue
+				}
+				if !nonNil(e, x.Block().Preds[i], d+1) {
+					return false
+				}
+			}
+			return true
+		case *ssa.UnOp:
+			// a package-level sentinel error
+			if g, ok := x.X.(*ssa.Global); ok && x.Op == token.MUL {
+				_ = g
+				return true
+			}
+		}
+		return false
+	}
+	reach := map[*ssa.BasicBlock]bool{}
+	stack := []*ssa.BasicBlock{cv.Block()}
+	for len(stack) > 0 {
+		b := stack[len(stack)-1]
+		stack = stack[:len(stack)-1]
+		if reach[b] {
+			continue
+		}
+		reach[b] = true
+		stack = append(stack, b.Succs...)
+	}
+	for _, b := range fn.Blocks {
+		if !reach[b] || len(b.Instrs) == 0 {
+			continue
+		}
+		ret, ok := b.Instrs[len(b.Instrs)-1].(*ssa.Return)
+		if !ok || underNil(b) {
+			continue
+		}
+		if errIdx >= len(ret.Results) || !nonNil(ret.Results[errIdx], b, 0) {
+			return fmt.Sprintf("%s can return without an error (%s) although the call at %s reported one", fnKey(fn), w.instrPos(ret), w.instrPos(cv))
+		}
+	}
+	// fn itself: a RunE function, or its callers deliver
+	if runFieldOf(w, fn) == "RunE" {
+		return ""
+	}
+	if f := runFieldOf(w, fn); f != "" {
+		return fnKey(fn) + " is a cobra " + f + " function: its error result is not seen by anybody"
+	}
+	n := w.CallGraph().Nodes[fn]
+	real := 0
+	if n != nil {
+		for _, e := range n.In {
+			if e.Caller.Func.Synthetic != "" || e.Site == nil {
+				continue
+			}
+			if e.Caller.Func.Pkg != w.Cmd {
+				continue
+			}
+			c2, ok := e.Site.(*ssa.Call)
+			if !ok {
+				return fnKey(fn) + " is started with go/defer: its error is dropped"
+			}
+			real++
+			var val *ssa.Call = c2
+			_ = val
+			if res.Len() > 1 {
+				return fnKey(fn) + ": multi-result callers are not followed"
+			}
+			if why := errorDelivered(w, c2, depth+1); why != "" {
+				return why
+			}
+		}
+	}
+	if real == 0 {
+		return fnKey(fn) + " has no caller under the command line"
+	}
+	return ""
+}
+
+// runFieldOf: the field of a cobra.Command (RunE, Run, ...) the function fn is stored in, "" if none.
+func runFieldOf(w *World, fn *ssa.Function) string {
+	out := ""
+	for _, f := range w.allFuncsInRepo() {
+		forEachInstr(f, func(_ *ssa.BasicBlock, ins ssa.Instruction) {
+			st, ok := ins.(*ssa.Store)
+			if !ok {
+				return
+			}
+			fa, ok := st.Addr.(*ssa.FieldAddr)
+			if !ok {
+				return
+			}
+			tn, fname, _, _ := fieldOf(fa)
+			if tn != "Command" {
+				return
+			}
+			v := stripIdentity(st.Val)
+			if mc, ok := v.(*ssa.MakeClosure); ok {
+				v = mc.Fn
+			}
+			if v == ssa.Value(fn) {
+				out = fname
+			}
+		})
+	}
+	return out
 }
